@@ -177,7 +177,7 @@ void h_include_angle(void) { run_include(false); }
 // `#include_next <a>` inside the header d1/a: the search continues after directory 1 - the directory of the file that
 // contains the directive - whatever the global search position was left at by other includes in between (symbolic).
 static File file_d1a = {.name = "d1/a", .display_name = "d1/a", .file_no = 3, .contents = ""};
-void h_include_next_after_nested(void) {
+static void include_next_from(File *cur, int from) {
   setup();
   __CPROVER_assume(IN.stale <= NDIR);
   include_next_idx = IN.stale;                       // left behind by some nested #include
@@ -186,15 +186,21 @@ void h_include_next_after_nested(void) {
   Token *lt = mk(TK_PUNCT, "<", 1, false, true);
   Token *nm = mk(TK_IDENT, "a", 1, false, false);
   Token *gt = mk(TK_PUNCT, ">", 1, false, false);
-  h->file = kw->file = lt->file = nm->file = gt->file = &file_d1a;
+  h->file = kw->file = lt->file = nm->file = gt->file = cur;
   mk(TK_EOF, "", 0, true, false);
   Token *out = NULL;
   expect_no_diag = 1;
   TRY(out = preprocess2(first_tok));
   if (verif_diag) return;
   VASSERT(include_calls == 1, "one file is included");
-  int want = first_hit(2, 0);
-  if (want >= 0) VASSERT(path_is(included_path, want, 0), "#include_next: first directory AFTER the one the current file was found in");
+  int want = first_hit(from, 0);
+  if (want >= 0) VASSERT(path_is(included_path, want, 0), "#include_next: first directory AFTER the one the current file was found in (from the first one if the file was not found through the include path)");
   else VASSERT(included_path[0] == 'a' && included_path[1] == 0, "no later directory has it: the bare name is passed on (and fails to open)");
   VCOVER();
 }
+void h_include_next_after_nested(void) { include_next_from(&file_d1a, 2); }
+// The file with the directive does NOT live in an include directory (the primary source file, or - as here - a
+// directory "d1x" whose name merely starts like the include directory "d1"): there is no "directory of the current
+// file" to continue after, the whole list is searched (gcc does the same), whatever the global position was.
+static File file_d1xa = {.name = "d1x/a", .display_name = "d1x/a", .file_no = 4, .contents = ""};
+void h_include_next_outside(void) { include_next_from(&file_d1xa, 0); }
